@@ -56,12 +56,15 @@ type Profile struct {
 	MistypedAttrs bool
 	// BigUniverse: up to 5 hash and range values per table (thorough tier)
 	BigUniverse bool
-	MinSteps    int
-	MaxSteps    int
-	Retain      bool
-	Weights     map[string]float64
-	FaultFree   float64  // share of runs with every fault kind off
-	Faults      []string // kinds that count as faults (switched off in fault-free runs)
+	// BigTables: the check has a big-table class (thorough tier); Big: this run is one
+	BigTables bool
+	Big       bool
+	MinSteps  int
+	MaxSteps  int
+	Retain    bool
+	Weights   map[string]float64
+	FaultFree float64  // share of runs with every fault kind off
+	Faults    []string // kinds that count as faults (switched off in fault-free runs)
 }
 
 // RunCfg is the swarm configuration drawn for one run.
@@ -115,8 +118,11 @@ var ForceNoAvoid bool
 
 func NewGen(seed uint64, p *Profile) *Gen {
 	g := &Gen{R: NewRng(seed), P: p, defs: map[string][]TableDef{}, nextID: 1, nextW: 1, avoid: map[string]bool{}}
-	g.makeWorld()
 	g.drawCfg()
+	if ForceNoAvoid {
+		g.Cfg.AvoidKnown = false
+	}
+	g.makeWorld()
 	if ForceNoAvoid {
 		g.Cfg.AvoidKnown = false
 	}
@@ -133,6 +139,12 @@ func (g *Gen) id() int { g.nextID++; return g.nextID - 1 }
 func keyVals(r *Rng, style, typ string, n int, hash bool, c, e string) []AV {
 	var pool []AV
 	switch {
+	case typ == "N" && mixedWidthNumbers:
+		// text order differs from numeric order (1, 10, 100, 11, 2, 9): only in
+		// runs that do not steer around the listed number-ordering finding
+		for _, s := range []string{"1", "2", "9", "10", "11", "100"} {
+			pool = append(pool, N(s))
+		}
 	case typ == "N":
 		for _, s := range []string{"11", "12", "13", "20", "35", "50"} /* equal width: text order = numeric order (number keys are ordered by text: listed finding of C02) */ {
 			pool = append(pool, N(s))
@@ -196,9 +208,13 @@ func keyVals(r *Rng, style, typ string, n int, hash bool, c, e string) []AV {
 	return out
 }
 
+// mixedWidthNumbers is set per world from the run's avoid decision.
+var mixedWidthNumbers bool
+
 func (g *Gen) makeWorld() {
 	r, p := g.R, g.P
 	w := &World{}
+	mixedWidthNumbers = KnownTriggers["number-sort-key-order"] && (p.Prop == "C02" || p.Prop == "C04")
 	style := p.KeyStyle
 	if len(p.AltKeyStyles) > 0 && r.Chance(p.AltKeyProb) {
 		style = pick(r, p.AltKeyStyles)
@@ -212,6 +228,9 @@ func (g *Gen) makeWorld() {
 		w.SDKs = append(w.SDKs, sdk)
 	}
 	nt := r.Range(1, p.MaxTables)
+	if p.Big {
+		nt = 1
+	}
 	for i := 0; i < nt; i++ {
 		name := fmt.Sprintf("tbl%d", i)
 		hashT, rangeT := "S", "S"
@@ -235,8 +254,17 @@ func (g *Gen) makeWorld() {
 		u.HashVals = keyVals(r, style, hashT, r.Range(2, maxVals), true, sepC, sepE)
 		u.RangeVals = keyVals(r, style, rangeT, r.Range(2, maxVals), false, sepC, sepE)
 		g2T := pick(r, []string{"S", "S", "N"})
-		if (style != "numeric" && p.Prop != "C02") || (KnownTriggers["number-sort-key-order"] && r.Chance(0.8)) {
+		if style != "numeric" && p.Prop != "C02" && p.Prop != "C04" {
 			g2T = "S"
+		}
+		if p.Big {
+			u.HashVals, u.RangeVals = nil, nil
+			for j := 0; j < 9; j++ {
+				u.HashVals = append(u.HashVals, S(fmt.Sprintf("h%d", j)))
+			}
+			for j := 0; j < 8; j++ {
+				u.RangeVals = append(u.RangeVals, S(fmt.Sprintf("r%d", j)))
+			}
 		}
 		u.IdxVals["g1"] = []AV{S("p"), S("q"), S("pq")}[:r.Range(2, 3)]
 		if g2T == "N" {
@@ -253,7 +281,7 @@ func (g *Gen) makeWorld() {
 		}
 		for a := 0; a < nAlt; a++ {
 			def := TableDef{Name: name, Hash: KeyDef{"h", hashT}, Billing: pick(r, []string{"PAY_PER_REQUEST", "PROVISIONED"})}
-			if r.Chance(p.RangeProb) {
+			if r.Chance(p.RangeProb) || p.Big {
 				def.Range = &KeyDef{"r", rangeT}
 			}
 			ni := r.Range(p.MinIdx, p.MaxIdx)
@@ -284,6 +312,9 @@ func (g *Gen) makeWorld() {
 func (g *Gen) drawCfg() {
 	r, p := g.R, g.P
 	cfg := RunCfg{Weights: map[string]float64{}, Steps: r.Range(p.MinSteps, p.MaxSteps), MapOrder: r.Intn(3)}
+	if p.Big {
+		cfg.Steps = r.Range(6, 14)
+	}
 	cfg.FaultFree = r.Chance(p.FaultFree)
 	cfg.AvoidKnown = r.Chance(0.8)
 	isFault := map[string]bool{}
@@ -321,6 +352,17 @@ func (g *Gen) Setup() []*Cmd {
 			def := g.defs[name][0]
 			out = append(out, &Cmd{ID: g.id(), Actor: "setup", Op: "Create", C: c, T: name, Def: &def,
 				Helper: g.P.Weights["create"] > 0 && len(def.Indexes) == 0 && def.Hash.Type == "S" && (def.Range == nil || def.Range.Type == "S") && def.Billing == "PAY_PER_REQUEST" && g.R.Chance(0.3)})
+			if g.P.Big {
+				keys := g.W.Tables[i].KeysOf(def)
+				n := g.R.Range(62, 68)
+				for start := 0; start < n; start += 25 {
+					b := &Cmd{ID: g.id(), Actor: "setup", Op: "BatchWrite", C: c}
+					for j := start; j < n && j < start+25; j++ {
+						b.Batch = append(b.Batch, BatchReq{T: name, Put: g.item(name, def, keys[j].Clone())})
+					}
+					out = append(out, b)
+				}
+			}
 		}
 	}
 	return out
